@@ -258,17 +258,20 @@ theorem feWrite_spec : ∀ (k p : Nat) (s : St), p + k ≤ s.mfcBuf.length →
 
 theorem cmnBlock_spec (skip : Nat → Bool) : ∀ (n ptr : Nat) (s : St) (c : Nat), ptr + n ≤ s.mfcBuf.length →
     (∀ i, i < n → s.mfcBuf.getD (ptr + i) none = some ⟨c + i, 0, false⟩) → s.cmnMoved = false →
+    s.cmnFrames + n ≤ cmnWinHwm →
     ∃ mb cf, cmnBlock skip n ptr s = { s with mfcBuf := mb, cmnFrames := cf } ∧ mb.length = s.mfcBuf.length ∧
       (∀ i, i < n → mb.getD (ptr + i) none = some ⟨c + i, 1, false⟩) ∧
       (∀ q, (q < ptr ∨ q ≥ ptr + n) → mb.getD q none = s.mfcBuf.getD q none) ∧
       s.cmnFrames ≤ cf ∧ cf ≤ s.cmnFrames + n := by
   intro n
   induction n with
-  | zero => intro ptr s c _ _ _; exact ⟨s.mfcBuf, s.cmnFrames, by simp [cmnBlock], rfl, by simp, by simp, by omega, by omega⟩
+  | zero => intro ptr s c _ _ _ _; exact ⟨s.mfcBuf, s.cmnFrames, by simp [cmnBlock], rfl, by simp, by simp, by omega, by omega⟩
   | succ n ih =>
-    intro ptr s c hp hfr hm
+    intro ptr s c hp hfr hm hcm
     have h0 := hfr 0 (by omega)
     rw [Nat.add_zero] at h0
+    have hcf : (if skip c then s.cmnFrames else s.cmnFrames + 1) ≤ s.cmnFrames + 1 := by split <;> omega
+    have hcf0 : s.cmnFrames ≤ (if skip c then s.cmnFrames else s.cmnFrames + 1) := by split <;> omega
     obtain ⟨mb, cf, e, hl, h1, h2, h3, h4⟩ := ih (ptr + 1)
       { s with mfcBuf := s.mfcBuf.set ptr (some ⟨c, 1, false⟩),
                cmnFrames := if skip c then s.cmnFrames else s.cmnFrames + 1 } (c + 1) (by simp; omega)
@@ -279,10 +282,14 @@ theorem cmnBlock_spec (skip : Nat → Bool) : ∀ (n ptr : Nat) (s : St) (c : Na
         have := hfr (i + 1) (by omega)
         rw [show ptr + 1 + i = ptr + (i + 1) by omega, this]
         congr 2; omega)
-      (by simpa using hm)
-    refine ⟨mb, cf, ?_, by simpa using hl, ?_, ?_, ?_, ?_⟩
+      (by simpa using hm) (by simp only []; omega)
+    simp only [] at h3 h4
+    refine ⟨mb, cf, ?_, by simpa using hl, ?_, ?_, by omega, by omega⟩
     · simp only [cmnBlock, h0]
       rw [show (false || s.cmnMoved) = false by simp [hm]]
+      have hno : ¬ (cmnWinHwm < if skip c = true then s.cmnFrames else s.cmnFrames + 1) := by omega
+      simp only [Nat.zero_add, Nat.add_zero, gt_iff_lt]
+      rw [if_neg hno]
       simpa using e
     · intro i hi
       cases i with
@@ -298,10 +305,6 @@ theorem cmnBlock_spec (skip : Nat → Bool) : ∀ (n ptr : Nat) (s : St) (c : Na
       rw [h2 q (by omega)]
       simp only []
       exact getD_set_ne _ _ _ _ _ (by omega)
-    · simp only [] at h3
-      split at h3 <;> omega
-    · simp only [] at h4
-      split at h4 <;> omega
 
 theorem cmnLive_spec (skip : Nat → Bool) (s : St) (ptr n c : Nat) (hp : ptr + n ≤ s.mfcBuf.length)
     (hfr : ∀ i, i < n → s.mfcBuf.getD (ptr + i) none = some ⟨c + i, 0, false⟩) (hm : s.cmnMoved = false)
@@ -313,11 +316,9 @@ theorem cmnLive_spec (skip : Nat → Bool) (s : St) (ptr n c : Nat) (hp : ptr + 
   by_cases hn : n = 0
   · subst hn
     exact ⟨s.mfcBuf, s.cmnFrames, by simp [cmnLive], rfl, by simp, by simp, by omega, by omega⟩
-  · obtain ⟨mb, cf, e, hl, h1, h2, h3, h4⟩ := cmnBlock_spec skip n ptr s c hp hfr hm
+  · obtain ⟨mb, cf, e, hl, h1, h2, h3, h4⟩ := cmnBlock_spec skip n ptr s c hp hfr hm hcmn
     refine ⟨mb, cf, ?_, hl, h1, h2, h3, h4⟩
     simp only [cmnLive, hn, if_false, e]
-    have : ¬ cf > cmnWinHwm := by omega
-    simp [this]
 
 /-! ## `feat_s2mfc2feat_live` -/
 
